@@ -975,6 +975,20 @@ def pipelines(ctx, w, cname):
                                 ("sum_ijab A_ia B_jb -> number", [("A", (i, a), 1), ("B", (j, b), 1)], "", ())):
         v = term_rec(w, SNum(Fraction(-3, 2)), [], tens)
         out.append((lab, Pipeline(ctx, w, cname, tstr, None, [((), [v])], {id(v): closed_scheme(cname, 100 + 10 * len(out), term_operands(v), tg)}, tg)))
+    # 7: tensors without indices (F55): a scalar tensor is an operand of the program, alone, next to numbers/symbols,
+    # next to another scalar tensor and next to a contraction
+    e1 = term_rec(w, SNum(2), [], [("E0", (), 1)])
+    e2 = term_rec(w, SNum(Fraction(-1, 2)), [("c", 1)], [("E0", (), 1), ("F0", (), 2)])
+    e3 = term_rec(w, SNum(3), [("c", 2)], [])
+    e4 = term_rec(w, SNum(Fraction(1, 3)), [], [("E0", (), 1), ("A", (i, a), 1), ("B", (i, a), 1)])
+    out.append(("scalar tensor 2 E0", Pipeline(ctx, w, cname, "", None, [((), [e1])],
+                                                {id(e1): closed_scheme(cname, 300, term_operands(e1), ())}, ())))
+    out.append(("scalar tensors -c/2 E0 F0^2 + 3 c^2 + E0 A_ia B_ia / 3", Pipeline(
+        ctx, w, cname, "", None, [((), [e2, e3, e4])],
+        {id(e2): closed_scheme(cname, 310, term_operands(e2), ()), id(e4): closed_scheme(cname, 320, term_operands(e4), ())}, ())))
+    e5 = term_rec(w, SNum(-2), [], [("E0", (), 1), ("A", (i, a), 1)])
+    out.append(("scalar tensor times tensor -2 E0 A_ia -> ai", Pipeline(ctx, w, cname, "ai", None, [((), [e5])],
+                                                                        {id(e5): closed_scheme(cname, 330, term_operands(e5), (a, i))}, (a, i))))
     out.append(("exponent", Pipeline(ctx, w, cname, "ib", None, [((), [t9])], {id(t9): [g0]}, (i, b),
                                      max_itmd_dim=7, max_n_simultaneous_contracted=5)))
     return out
@@ -1161,7 +1175,8 @@ def check_pipeline(ctx, rule, fn, label, pl):
         builder = "optimize_contractions" if optimize else "unoptimized_contraction"
         other = "unoptimized_contraction" if optimize else "optimize_contractions"
         want_b = []
-        for t in (t for _, ts in pl.classes for t in ts if t.attrs["idx"]):
+        # every term that holds a tensor or delta (with or without indices) gets a scheme; pure number/symbol terms do not
+        for t in (t for _, ts in pl.classes for t in ts if t.attrs["idx"] or term_operands(t)):
             d = dict(term=t, target_indices=sep_free, target_spin=spin_free)
             if optimize:
                 d.update(max_itmd_dim=pl.opts.get("max_itmd_dim"),
